@@ -86,7 +86,22 @@ type c15flaky struct {
 	w    *simrt.World
 	s    *simstore.Store
 	down *bool
+	hic  *c15hiccup
 }
+
+// c15hiccup is a brief store fault on one node's connection: after skip
+// successful Set operations exactly ONE Set blocks for hang (a timeout) and
+// then fails; the store is healthy before and after.
+type c15hiccup struct {
+	armed      bool
+	skip, seen int
+	hang       time.Duration
+	fired      bool
+	firedAt    time.Duration
+	firedStamp int64
+}
+
+var errC15Hiccup = errors.New("c15: store operation timed out (single hiccup)")
 
 var errC15Outage = errors.New("c15: store unreachable from this node (outage)")
 
@@ -101,6 +116,19 @@ func (f c15flaky) Set(k string, v any, ttl time.Duration) error {
 	if err := f.chk(); err != nil {
 		f.w.Yield("outage.Set")
 		return err
+	}
+	if h := f.hic; h != nil && h.armed && !h.fired {
+		if h.seen == h.skip {
+			h.fired, h.firedAt, h.firedStamp = true, f.w.Now(), f.w.Stamp()
+			f.w.Fault("store.hiccup")
+			if h.hang > 0 {
+				f.w.Sleep(h.hang)
+			} else {
+				f.w.Yield("hiccup.Set")
+			}
+			return errC15Hiccup
+		}
+		h.seen++
 	}
 	return f.s.Set(k, v, ttl)
 }
@@ -171,6 +199,7 @@ type c15cluster struct {
 	redis   *simstore.Redis
 	handles []*simstore.Store // per node: fault/yield wrapper onto the backend
 	down    []*bool           // per node outage switch
+	hics    []*c15hiccup      // per node single-operation hiccup (disarmed unless a mode arms it)
 	views   []types.Storage   // per node: what the node's components are constructed with
 	closers []func()
 }
@@ -198,7 +227,9 @@ func c15NewCluster(w *simrt.World, flavour string, nodes int) *c15cluster {
 		d := new(bool)
 		cl.handles = append(cl.handles, h)
 		cl.down = append(cl.down, d)
-		fl := c15flaky{w: w, s: h, down: d}
+		hc := &c15hiccup{}
+		cl.hics = append(cl.hics, hc)
+		fl := c15flaky{w: w, s: h, down: d, hic: hc}
 		var view types.Storage
 		switch flavour {
 		case "cas-memory", "cas-redis":
@@ -858,9 +889,30 @@ func c15RunNodeAlloc(w *simrt.World, tier string) {
 	outStart := []time.Duration{5*time.Second + 11*time.Millisecond, 40*time.Second + 11*time.Millisecond}[c.Intn(2, "outage.start")]
 	outLen := []time.Duration{200*time.Second + 7*time.Millisecond, 20*time.Second + 7*time.Millisecond}[c.Intn(2, "outage.len")]
 
+	// a single failed renewal (optionally a slow, timeout-like one) of one holder: shorter than any lease
+	// design can be allowed to lose; exclusive with the long/short outage window
+	hiccup := !outage && c.Intn(3, "hiccup") == 2
+	hicNode := c.Intn(ncont, "hiccup.node")
+	hicSkip := c.Intn(4, "hiccup.skip")
+	hicHang := []time.Duration{20*time.Second + 9*time.Millisecond, 5*time.Second + 9*time.Millisecond, 0}[c.Intn(3, "hiccup.hang")]
+	// a prober node that keeps asking for a slot (allocate, release at once) on a fine time grid, so that
+	// even a short window in which a held slot is free is noticed; its instants carry a sub-millisecond
+	// offset and therefore never coincide with a lease boundary
+	prober := prefill < node.NodeIDMax && (hiccup || c.Intn(3, "prober") == 2)
+	probeStart := []time.Duration{500 * time.Microsecond, 45*time.Second + 500*time.Microsecond, 95*time.Second + 500*time.Microsecond}[c.Intn(3, "prober.start")]
+	probePeriod := []time.Duration{7*time.Second + time.Microsecond, 11*time.Second + time.Microsecond, 4*time.Second + time.Microsecond}[c.Intn(3, "prober.period")]
+	probeCount := 10 + c.Intn(30, "prober.count")
+	nnodes := ncont
+	if prober {
+		nnodes++
+	}
+
 	w.SetCrashSentinel(simstore.Crash)
-	cl := c15NewCluster(w, flavour, ncont)
+	cl := c15NewCluster(w, flavour, nnodes)
 	defer cl.close()
+	if hiccup {
+		*cl.hics[hicNode] = c15hiccup{armed: true, skip: hicSkip, hang: hicHang}
+	}
 
 	var holds []*c15hold
 	// slots occupied by foreign holders (written straight into the shared store)
@@ -949,6 +1001,43 @@ func c15RunNodeAlloc(w *simrt.World, tier string) {
 			}
 		}))
 	}
+	if prober {
+		span := probeStart + time.Duration(probeCount)*probePeriod
+		if span > total {
+			total = span
+		}
+		tasks = append(tasks, w.Spawn("alloc@prober", func() {
+			w.Sleep(probeStart)
+			for k := 0; k < probeCount; k++ {
+				a := node.NewNodeIDAllocator(cl.views[ncont])
+				ctx, cancel := context.WithCancel(w.Ctx)
+				w.Yield("c15.probe.invoke")
+				h := &c15hold{holder: "prober", nodeIdx: ncont, endStamp: c15never}
+				h.callStamp, h.callTime = w.Stamp(), w.Now()
+				id, err := a.AllocateNodeID(ctx)
+				w.Yield("c15.probe.return")
+				h.retStamp, h.retTime = w.Stamp(), w.Now()
+				if err != nil {
+					mu.Lock()
+					failedAlloc++
+					mu.Unlock()
+					w.Probe("alloc.failed")
+				} else {
+					h.id = id
+					mu.Lock()
+					holds = append(holds, h)
+					h.endStamp = w.Stamp()
+					mu.Unlock()
+					w.Probe("alloc.probe-ok")
+					if err := a.Release(); err != nil {
+						w.Probe("alloc.release-error")
+					}
+				}
+				cancel()
+				w.Sleep(probePeriod)
+			}
+		}))
+	}
 	if crash {
 		w.Spawn("killer", func() {
 			w.Sleep(crashAfter)
@@ -1015,12 +1104,19 @@ func c15RunNodeAlloc(w *simrt.World, tier string) {
 			if outage && h1.nodeIdx == outNode && outLen > 60*time.Second && outFrom > 0 && outFrom < h2.retTime {
 				cls = "duplicate-after-lease-lapse:" + flavour
 			}
+			// the holder lost its slot although its store connection failed for ONE operation only and the two
+			// allocations did not race: the lease did not survive a single missed renewal
+			if hiccup && h1.nodeIdx == hicNode && cl.hics[hicNode].fired && cl.hics[hicNode].firedStamp < h2.retStamp &&
+				!(h1.callStamp < h2.retStamp && h2.callStamp < h1.retStamp) {
+				cls = "duplicate-after-single-failed-renewal:" + flavour
+				note = fmt.Sprintf(" [one Set of %s failed at t=%v after blocking %v; nothing else was wrong with its store connection]", h1.holder, cl.hics[hicNode].firedAt, hicHang)
+			}
 			// Root cause attribution: once two holders share a slot, each one's Release (an unconditional
 			// Delete) and heartbeat (an unconditional Set) act on the other's key, so a later overlap that
 			// involves one of those holders is a consequence of the first duplicate on that slot and is
 			// reported under that duplicate's class (the violation itself is unchanged).
 			if root, ok := party[h1]; ok {
-				cls, note = root, " [consequence: "+h1.holder+" already shared this slot in an earlier duplicate; the other holder's Release freed the key]"
+				cls, note = root, note+" [consequence: "+h1.holder+" already shared this slot in an earlier duplicate; the other holder's Release freed the key]"
 			} else if root, ok := party[h2]; ok {
 				cls, note = root, " [consequence: "+h2.holder+" already shared this slot in an earlier duplicate]"
 			}
@@ -1045,8 +1141,11 @@ func c15RunNodeAlloc(w *simrt.World, tier string) {
 	if conc || contended || failedAlloc > 0 {
 		w.Nontrivial()
 	}
-	w.State(fmt.Sprintf("alloc/%s/c%d/pre%d/crash=%v/out=%v/conc=%v/cont=%v/fail=%v/dup=%v", flavour, ncont, prefill, crash, outage, conc, contended, failedAlloc > 0, overlapSeen))
-	w.Sample(fmt.Sprintf("nodealloc %s contenders=%d prefilled=%d crash=%v outage=%v(%v): %d holds, %d failed allocations", flavour, ncont, prefill, crash, outage, outLen, len(holds)-min(prefill, len(holds)), failedAlloc))
+	if hiccup && cl.hics[hicNode].fired {
+		w.Probe("alloc.single-renewal-failed")
+	}
+	w.State(fmt.Sprintf("alloc/%s/c%d/pre%d/crash=%v/out=%v/hic=%v/probe=%v/conc=%v/cont=%v/fail=%v/dup=%v", flavour, ncont, prefill, crash, outage, hiccup && cl.hics[hicNode].fired, prober, conc, contended, failedAlloc > 0, overlapSeen))
+	w.Sample(fmt.Sprintf("nodealloc %s contenders=%d prefilled=%d crash=%v outage=%v(%v) hiccup=%v(skip %d, hang %v) prober=%v(every %v x%d): %d holds, %d failed allocations", flavour, ncont, prefill, crash, outage, outLen, hiccup, hicSkip, hicHang, prober, probePeriod, probeCount, len(holds)-min(prefill, len(holds)), failedAlloc))
 }
 
 // ---------------------------------------------------------------- uuid smoke mode
@@ -1120,7 +1219,7 @@ func init() {
 		Rule: "each run draws a mode. (idgen, 10/16) a shared store flavour (CAS memory / CAS redis / tiered hybrid with id keys on the shared cache / tiered with a shared cache lacking SetNX / store lacking CASStore), 1-3 nodes x 1-2 generator instances (IDManager, or StorageIDGenerator with marker lifetime 7s/1h/never), " +
 			"an entropy pool of 1-8 values that replaces crypto/rand.Reader for the run (pool index drawn from the choice stream at every Read), 1-2 id kinds, per candidate id a pre-existing state (none / live marker / marker already expired / taken by a stored record), " +
 			"2-5 tasks (spread over the instances, or in 1/4 of the runs all on one instance) with 1-4 operations each (Generate, Release of an id the task owns, GenerateUnique* with a check function that may fail, sleeps of 3s/61min/31d), store errors on one node (p=0,1/6,1/3) and a node crash before its k-th store operation; tasks are interleaved at statement granularity. " +
-			"(nodealloc, 5/16) 2-3 NodeIDAllocator contenders with 1-2 allocate/hold/release cycles (holds 0s..260s so heartbeat renewals and lease lapses occur), 0-3 or all 1000 slots pre-occupied with 20s/1h claims, a node crash, a 20s or 200s store outage of one holder. " +
+			"(nodealloc, 5/16) 2-3 NodeIDAllocator contenders with 1-2 allocate/hold/release cycles (holds 0s..260s so heartbeat renewals and lease lapses occur), 0-3 or all 1000 slots pre-occupied with 20s/1h claims, a node crash, a 20s or 200s store outage of one holder, or a single failing Set (the k-th, k=1..4, blocking 0/5/20s like a timeout) on one holder's store connection, and a prober node that allocates+releases every 4/7/11s (sub-millisecond offset) for 10-39 rounds so that short free windows of a held slot are seen. " +
 			"(uuid, 1/16) connection/tunnel/mapping-instance ids under the untouched full-entropy reader. " +
 			"Non-trivial: (idgen) at least one candidate collided and was retried, or generation ended in exhaustion, or two Generate calls for one kind overlapped; (nodealloc) two allocations overlapped, or two holders (incl. foreign) met on one slot, or an allocation failed. Distinct = distinct abstract state key (flavour, topology, pool size, outcome classes) and schedule hash.",
 		Real: []string{"internal/core/idgen StorageIDGenerator.Generate/Release/tryMarkAsUsed, IDManager incl. GenerateUnique*", "internal/core/idgen UUIDGenerator", "internal/core/node NodeIDAllocator (allocate, heartbeat, release)",
